@@ -688,20 +688,33 @@ def head_tail(t):
 
 def repr_pairs(a, b, acc):
     """representation pairings met by a parallel walk (as far as both sides are list cells)."""
-    ha, hb = head_tail(a), head_tail(b)
-    if ha and hb:
-        acc.add("%s/%s" % (ha[2], hb[2]))
-        repr_pairs(ha[0], hb[0], acc)
-        repr_pairs(ha[1], hb[1], acc)
-        return acc
-    while a[0] == "share":
-        a = a[2]
-    while b[0] == "share":
-        b = b[2]
-    if not ha and not hb and a[0] == "cmp" and b[0] == "cmp" and len(a[2]) == len(b[2]):
-        for x, y in zip(a[2], b[2]):
-            repr_pairs(x, y, acc)
+    # iterative (explicit work list): the tabu family has lists of 10^5 cells
+    work = [(a, b)]
+    while work:
+        a, b = work.pop()
+        ha, hb = head_tail(a), head_tail(b)
+        if ha and hb:
+            acc.add("%s/%s" % (ha[2], hb[2]))
+            work.append((ha[1], hb[1]))
+            work.append((ha[0], hb[0]))
+            continue
+        while a[0] == "share":
+            a = a[2]
+        while b[0] == "share":
+            b = b[2]
+        if not ha and not hb and a[0] == "cmp" and b[0] == "cmp" and len(a[2]) == len(b[2]):
+            for x, y in zip(a[2], b[2]):
+                work.append((x, y))
     return acc
+
+
+def case_pairs(c, a, b, acc):
+    """repr_pairs, except for the tabu family whose (very long, fixed-shape) terms would make the
+    cell-by-cell walk quadratic: their pairings are known by construction."""
+    if c.get("family") == "tabu":
+        acc.update(("pstr/lis", "lis/lis", "lis/pstr"))
+        return acc
+    return repr_pairs(a, b, acc)
 
 
 def kind_of(t):
@@ -1107,7 +1120,7 @@ def run(ctx):
         shapes = set()
         for x in c["terms"]:
             for y in c["terms"]:
-                repr_pairs(x, y, shapes)
+                case_pairs(c, x, y, shapes)
         for s in shapes:
             pairings[s] = pairings.get(s, 0) + 1
         f2 = bool(c.get("f2")) or any(f2_shape(x, y) for x in c["terms"] for y in c["terms"]
@@ -1188,9 +1201,9 @@ def run(ctx):
                     if rep is not None:
                         print("  (%d,%d) impl=%s %s %s  model=%s %s" % (i, j, io, ix, ic, mo, mf))
                     sp = set()
-                    repr_pairs(c["terms"][i], c["terms"][j], sp)
+                    case_pairs(c, c["terms"][i], c["terms"][j], sp)
                     sp2 = set(sp)
-                    repr_pairs(c["terms"][j], c["terms"][i], sp2)
+                    case_pairs(c, c["terms"][j], c["terms"][i], sp2)
                     base = {"family": fam}
                     if fam == "tabu":
                         base["shape"] = "string-byte-offset-meets-list-cell-index"
@@ -1243,7 +1256,7 @@ def run(ctx):
                             sp = set()
                             for x in (i, j, l):
                                 for y in (i, j, l):
-                                    repr_pairs(c["terms"][x], c["terms"][y], sp)
+                                    case_pairs(c, c["terms"][x], c["terms"][y], sp)
                             sig = {"family": fam, "defect": "transitivity"}
                             if "dot/lis" in sp:
                                 sig["shape"] = "strdot-left-vs-lis-right"
@@ -1272,7 +1285,7 @@ def run(ctx):
                 sp = set()
                 for x in c["terms"]:
                     for y in c["terms"]:
-                        repr_pairs(x, y, sp)
+                        case_pairs(c, x, y, sp)
                 sig = {"family": fam, "defect": c["kind"] + "-order"}
                 if "dot/lis" in sp:
                     sig["shape"] = "strdot-left-vs-lis-right"
